@@ -44,6 +44,7 @@ type flowParams struct {
 	PointOnly    []string            `json:"point_only"`     // preemptive part: sweep only points of these files
 	LateOpen     []string            `json:"late_open"`      // destinations whose Open gate sorts last (stays pending by default)
 	LateCommit   bool                `json:"late_commit"`    // store commits stay in flight until nothing else can run (exploration order)
+	SiteWide     bool                `json:"site_wide"`      // preemptive part: hold every goroutine reaching the armed site
 	LateAckRecv  bool                `json:"late_ack_recv"`  // source plugins are slow to receive acks (exploration order)
 	GateDestOpen bool                `json:"gate_dest_open"` // destination Open calls are pending events with answers {ok, err}
 	NoMatch      []int               `json:"no_match"`       // records that do not match the processors' condition (Cond: "match")
@@ -90,6 +91,9 @@ func (p flowParams) name() string {
 	}
 	if p.LateCommit {
 		n += "/latecommit"
+	}
+	if p.SiteWide {
+		n += "/sitewide"
 	}
 	if p.LateAckRecv {
 		n += "/lateackrecv"
@@ -647,6 +651,10 @@ func TestVerifFlowPreempt(t *testing.T) {
 		e := &verifkit.Explorer{T: t, Rep: rep, Scn: scn, MaxBound: 0, PreemptBound: &pb, MaxPointOccurrence: 2, Deadline: deadline}
 		if verifkit.Thorough() {
 			e.CandidateBound = 1
+		}
+		e.SiteWide = sc.p.SiteWide
+		if e.SiteWide {
+			e.CandidateBound = 1 // sites are few: also take those only failing / stopping runs reach
 		}
 		if only := sc.p.PointOnly; len(only) > 0 {
 			e.PointFilter = func(occ string) bool {
